@@ -52,7 +52,8 @@ func c02One(ctx *vh.Ctx, c *c02Case) error {
 	// the hypothesis of the run-level theorems (dag_at_most_once) must hold for every graph
 	// eino compiles in this mode; otherwise the theorem does not speak about this run
 	var hyp struct {
-		WF *bool `json:"wf"`
+		WF  *bool `json:"wf"`
+		WF2 *bool `json:"wf2"`
 	}
 	_ = json.Unmarshal(raw, &hyp)
 	if hyp.WF == nil || !*hyp.WF {
@@ -61,6 +62,13 @@ func c02One(ctx *vh.Ctx, c *c02Case) error {
 		return nil
 	}
 	ctx.Res.Dist("wf-hypothesis=true")
+	// second hypothesis (dag_enabled_nodes_start): counted, and reported if it fails for a graph eino runs
+	if hyp.WF2 == nil || !*hyp.WF2 {
+		ctx.Res.Dist("wf2-hypothesis=false")
+		ctx.Res.Disagree(vh.Disagreement{Signature: "C02:wf2-hypothesis", What: "eino compiled and ran this all-predecessor graph, but the model's compiled runner does not satisfy DagWF2 (every declared predecessor lists the node as a control / data successor) — the hypothesis of dag_enabled_nodes_start", Case: c, Model: model, Impl: impl})
+		return nil
+	}
+	ctx.Res.Dist("wf2-hypothesis=true")
 	if impl.Result.Err != nil {
 		ctx.Res.Dist("result=" + impl.Result.Err.C)
 	} else {
